@@ -7,6 +7,7 @@ Every operand tuple goes through both entrances of the SUT:
              yields null" and "no evaluation ever produces an infinite or NaN value" are judged.
 The oracle is pbt/oracles/c02_ref.py (CPython decimal as decimal128, exact rationals, 80-digit references)."""
 import decimal
+import json
 import os
 import re
 import sys
@@ -902,6 +903,67 @@ def grid_cases(ctx):
 
 # ------------------------------------------------------------------------------------------------
 
+# ------------------------------------------------------------------------------------------------------------------
+# part: "no evaluation ever produces an infinite or not-a-number value" where several operations are chained inside the evaluator:
+# the numeric aggregates and expressions over their results
+# ------------------------------------------------------------------------------------------------------------------
+
+CTX = dec.ctx128()
+D = dec.D
+
+AGG_TEXT = ("[sum(L), mean(L), median(L), stddev(L), min(L), max(L), sum(L) + max(L), sum(L) * 2, abs(sum(L)), floor(mean(L)), sum(L) - sum(L), "
+            "mean(L) / min(L), modulo(sum(L), 7), even(sum(L)), odd(sum(L)), string(sum(L)), sqrt(sum(L)), sum(L) ** 2, -sum(L), count(L)]")
+_NONFINITE = re.compile(r"Infinity|Inf\b|NaN")
+
+
+def gen_agg(src):
+    n = src.int(1, 4)
+    items = []
+    edge = src.bool(0.6)
+    for _ in range(n):
+        if edge and src.bool(0.7):
+            sign = "-" if src.bool(0.3) else ""
+            items.append(sign + src.choice(["9E+6144", "5E+6144", "1E+6144", "9.999999999999999999999999999999999E+6144", "4.999999999999999999999999999999999E+6144",
+                                            "5.000000000000000000000000000000000E+6144", "9E+6143", "1E+6111", "3E+6144", "9999999999999999999999999999999999E+6111"]))
+        else:
+            items.append(dec.sci(dec.gen_d128(src)))
+    return {"items": items}
+
+
+def reqs_agg(case):
+    return [{"op": "eval", "text": AGG_TEXT, "scope": [[["L", {"l": [{"n": x} for x in case["items"]]}]]]}]
+
+
+def judge_agg(ctx, case, resp):
+    r = resp[0]
+    items = [D(x) for x in case["items"]]
+    if "values" not in r:
+        ctx.note(key=["agg", case["items"]], nontrivial=False, labels=["aggregates", "aggregates:not-evaluated"])
+        return Fail("C02/aggregates/not-evaluated", "%s over L = %s: %r" % (AGG_TEXT[:60], case["items"], r))
+    v = r["values"][0]
+    text = json.dumps(v)
+    t = D(0)
+    over = False
+    for x in items:
+        t = CTX.add(t, x)
+        over = over or not t.is_finite()
+    ctx.note(key=["agg", case["items"]], nontrivial=over, labels=["aggregates", "aggregates:sum-out-of-range" if over else "aggregates:sum-in-range", "items:%d" % len(items)],
+             sample={"L": case["items"], "sum": (v.get("l") or [None])[0] if isinstance(v, dict) else None})
+    if _NONFINITE.search(text):
+        return Fail("C02/aggregates/non-finite-number", "with L = [%s]\n  %s\n  evaluates to %s\n  an infinite or not-a-number value (out of range is null)" % (
+            ", ".join(case["items"]), AGG_TEXT, text[:600]))
+    got = v.get("l") if isinstance(v, dict) else None
+    if not got or len(got) != 20:
+        return Fail("C02/aggregates/not-evaluated", "L = %s: %r" % (case["items"], v))
+    if not over:
+        # the sum taken left to right with correctly rounded additions, and the mean derived from it
+        for idx, name, want in ((0, "sum", t), (1, "mean", CTX.divide(t, D(len(items))))):
+            g = got[idx]
+            if not (isinstance(g, dict) and "d" in g) or D(g["d"]).compare(want) != 0 and not (D(g["d"]) == want):
+                return Fail("C02/aggregates/%s-wrong" % name, "%s(L) with L = [%s] is %r, the correctly rounded additions give %s" % (name, ", ".join(case["items"]), g, want))
+    return None
+
+
 def setup(ctx):
     decimal.getcontext().prec = 25000          # guard: a stray Decimal operator must never round to 28 digits
     decimal.getcontext().traps = dict.fromkeys(decimal.getcontext().traps, False)
@@ -929,6 +991,7 @@ def setup(ctx):
     ctx.p_units = ctx.register(Part("units", gen_units_case, reqs_case, judge_case))
     ctx.p_conc = ctx.register(Part("concurrent", gen_concurrent, reqs_concurrent, judge_concurrent))
     ctx.p_grid = ctx.register(Part("grid", None, reqs_case, judge_case))
+    ctx.p_agg = ctx.register(Part("aggregates", gen_agg, reqs_agg, judge_agg))
 
 
 def run(ctx):
@@ -937,6 +1000,7 @@ def run(ctx):
     ctx.forall(ctx.p_rand, ctx.scale(45000, 3000000), batch=300)
     ctx.forall(ctx.p_powedge, ctx.scale(60000, 3000000), batch=300)
     ctx.forall(ctx.p_units, ctx.scale(40000, 3000000), batch=300)
+    ctx.forall(ctx.p_agg, ctx.scale(8000, 1500000), batch=300)
     ctx.forall(ctx.p_conc, ctx.scale(60, 3000), batch=1)
 
 
